@@ -405,6 +405,9 @@ def finish(ctx, level, coverage, assumptions):
             new.append(v)
     for kid, (entry, n) in sorted(hit.items()):
         log("KNOWN-FINDING: property=%s %s [%s; %d occurrence(s) this run]" % (ctx.pid, entry["what"], kid, n))
+    # everything found in this run, for triage (scratch, not evidence)
+    with open(os.path.join(ctx.work, "violations.json"), "w") as f:
+        json.dump([{"sig": v["sig"], "what": v["what"], "known": v not in new} for v in ctx.violations], f, indent=1)
     rdir = os.path.join(ROOT, "replays", ctx.pid)
     seen = set()
     nprinted = 0
